@@ -30,6 +30,7 @@ type JobSpec struct {
 	Budget   int                `json:"budget_s,omitempty"`
 	Synctest bool               `json:"synctest,omitempty"`
 	Weight   int                `json:"weight,omitempty"`
+	Repeat   int                `json:"replay_repeat,omitempty"`
 }
 
 type CheckSpec struct {
@@ -427,14 +428,14 @@ type ReplayFile struct {
 	Pos      string            `json:"pos"`
 	Stack    []string          `json:"stack"`
 	Inputs   map[string]string `json:"inputs"`
+	Repeat   int               `json:"replay_repeat,omitempty"`
 	Synctest bool              `json:"synctest,omitempty"`
-	Weight   int               `json:"weight,omitempty"`
 	Howto    string            `json:"howto"`
 }
 
 func writeReplay(path, id string, in *jobInst, f *FindingJSON) {
 	rf := ReplayFile{Property: id, Pkg: in.spec.Pkg, Harness: in.spec.Fn, Case: in.cs, Kind: f.Kind, Label: f.Label, Pos: f.Pos, Stack: f.Stack, Inputs: f.Inputs,
-		Synctest: in.spec.Synctest, Howto: "bin/vsym replay " + path + "   (runs the harness natively against /repo with these inputs via go test -overlay)"}
+		Synctest: in.spec.Synctest, Repeat: in.spec.Repeat, Howto: "bin/vsym replay " + path + "   (runs the harness natively against /repo with these inputs via go test -overlay)"}
 	d, _ := json.MarshalIndent(rf, "", " ")
 	os.WriteFile(path, d, 0o644)
 }
@@ -491,9 +492,13 @@ func TestVFReplay(t *testing.T) {
 	if fn == nil {
 		t.Fatalf("no harness %q", os.Getenv("VF_HARNESS"))
 	}
+	failed := false
 	run := func() {
 		defer func() {
 			r := recover()
+			if r != nil {
+				failed = true
+			}
 			switch x := r.(type) {
 			case nil:
 				fmt.Println("VF-OUTCOME: ok")
@@ -507,10 +512,17 @@ func TestVFReplay(t *testing.T) {
 		}()
 		fn()
 	}
-	if os.Getenv("VF_SYNCTEST") == "1" {
-		synctest.Test(t, func(t *testing.T) { run() })
-	} else {
-		run()
+	// Schedules that depend on Go's random choice among ready select cases are replayed
+	// statistically: the harness is re-run until the recorded failure shows (VF_REPEAT times at most).
+	repeat := 1
+	fmt.Sscanf(os.Getenv("VF_REPEAT"), "%d", &repeat)
+	for i := 0; i < repeat && !failed; i++ {
+		VfReset()
+		if os.Getenv("VF_SYNCTEST") == "1" {
+			synctest.Test(t, func(t *testing.T) { run() })
+		} else {
+			run()
+		}
 	}
 }
 `)
@@ -526,6 +538,9 @@ func TestVFReplay(t *testing.T) {
 	cmd.Env = append(os.Environ(), "VF_REPLAY="+replayPath, "VF_HARNESS="+rf.Harness, "GOFLAGS=-mod=mod")
 	if rf.Synctest {
 		cmd.Env = append(cmd.Env, "VF_SYNCTEST=1")
+	}
+	if rf.Repeat > 1 {
+		cmd.Env = append(cmd.Env, fmt.Sprintf("VF_REPEAT=%d", rf.Repeat))
 	}
 	out, _ := cmd.CombinedOutput()
 	txt := string(out)
